@@ -125,6 +125,10 @@ def _f17(prop, case, v):
         return False
     if v.get('differs-only-in-byte-order-marks') is not True:
         return False
+    if v.get('kind') == 'roundtrip-differs':
+        # no BOM was written, and the text happens to begin with U+FEFF (the first cell's first character): the reader
+        # takes that character for the BOM it expects
+        return v.get('only-the-leading-U+FEFF-of-the-first-cell-is-lost') is True
     return (v.get('kind') == 'exception' and 'does not start with BOM' in str(v.get('detail'))) or \
         (v.get('kind') in ('file-not-decodable', 'append-bytes-differ') and 'BOM' in repr(v))
 
